@@ -33,3 +33,29 @@ pub fn shim_btreemap_filter_map_collect<K: Ord, V, F: FnMut((K, V)) -> Option<(K
 } // verus!
 }
 pub use crate::stdx::*;
+pub mod stdx2 {
+use vstd::prelude::*;
+use vstd::std_specs::iter::IteratorSpec;
+use crate::num::bigint::BigUint;
+verus! {
+pub open spec fn seq_sum(s: Seq<u64>) -> nat decreases s.len() {
+    if s.len() == 0 { 0 } else { seq_sum(s.drop_last()) + s.last() as nat }
+}
+/// N2 chain shim: `IT.map(F).sum()` into a BigUint.  The iterator is consumed to completion
+/// (so its prophecy `will_return_none` holds) and the result is the exact sum of f over what it yields.
+#[verifier::external_body]
+pub fn shim_map_sum_biguint<I: Iterator, F: FnMut(I::Item) -> u64>(it: I, f: F) -> (r: BigUint)
+    requires
+        it.obeys_prophetic_iter_laws(),
+        forall|i: int| 0 <= i < it.remaining().len() ==> call_requires(f, (#[trigger] it.remaining()[i],)),
+    ensures
+        it.will_return_none(),
+        exists|s: Seq<u64>| s.len() == it.remaining().len()
+            && (forall|i: int| 0 <= i < s.len() ==> call_ensures(f, (it.remaining()[i],), #[trigger] s[i]))
+            && r@ == seq_sum(s),
+{
+    unimplemented!() // it.map(f).sum()  -- needs the num crate; see DESIGN §3.2
+}
+}
+}
+pub use crate::stdx2::*;
